@@ -561,7 +561,7 @@ class FunctionalRightScalarMult(Functional, OperatorRightScalarMult):
 
         Functional.__init__(
             self, space=func.domain, linear=func.is_linear,
-            grad_lipschitz=np.abs(scalar) * func.grad_lipschitz)
+            grad_lipschitz=np.abs(scalar) ** 2 * func.grad_lipschitz)
         OperatorRightScalarMult.__init__(self, operator=func, scalar=scalar)
 
     @property
@@ -1010,6 +1010,8 @@ class FunctionalQuadraticPerturb(Functional):
             grad_lipschitz = func.grad_lipschitz
         else:
             grad_lipschitz = (func.grad_lipschitz + self.linear_term.norm())
+        # The quadratic term a * ||x||^2 has gradient 2 * a * x
+        grad_lipschitz = grad_lipschitz + 2 * abs(self.quadratic_coeff)
 
         constant = func.domain.field.element(constant)
         if constant.imag != 0:
